@@ -675,7 +675,9 @@ void ObjectFile::store(bool isCommit /* = false */)
 		return;
 	}
 
-	File objectFile(path, umask, true, true, true, false);
+	// Committing a transaction must not bring back an object file that
+	// another process has deleted in the meantime
+	File objectFile(path, umask, true, true, !isCommit, false);
 
 	if (!objectFile.isValid())
 	{
